@@ -1,20 +1,22 @@
 #!/bin/bash
 # usage: tools/seeded_recheck.sh <id>...   re-runs the owning check on kept seeded changes and appends the outcome to meta.json
-for id in "$@"; do
-  pid="${id%-*}"
+# <id>@<Cyy> runs property Cyy's check instead (a change whose violation belongs to another property's clause)
+for arg in "$@"; do
+  id="${arg%@*}"; pid="${id%-*}"; key="recheck"
+  case "$arg" in *@*) pid="${arg#*@}"; key="recheck_$pid";; esac
   out=$(/verif/tools/seeded_run.sh /verif/seeded/$id/patch.diff $pid 2>&1)
   rc=$(echo "$out" | grep -o "SEEDED-RESULT rc=[0-9]*" | tail -1)
   nv=$(echo "$out" | grep -c "^VIOLATION")
   nf=$(echo "$out" | grep -c "no-failing-input-found")
   first=$(echo "$out" | grep "^VIOLATION" | head -1 | sed 's#/tmp/seedrun-[0-9]*-verif/replays/##')
   line=$(echo "$out" | grep "^\[$pid\]" | tail -1)
-  echo "$id: $rc violations=$nv no-failing-input=$nf :: $first"
-  python3 - "$id" "$rc" "$nv" "$nf" "$first" "$line" <<'PY'
+  echo "$arg: $rc violations=$nv no-failing-input=$nf :: $first"
+  python3 - "$id" "$rc" "$nv" "$nf" "$first" "$line" "$key" "$pid" <<'PY'
 import json,sys
-id_,rc,nv,nf,first,line=sys.argv[1:7]
+id_,rc,nv,nf,first,line,key,pid=sys.argv[1:9]
 p=f"/verif/seeded/{id_}/meta.json"
 m=json.load(open(p))
-m["recheck"]={"result":rc,"violation_lines":int(nv),"no_failing_input_found":int(nf),"first":first,"summary":line}
+m[key]={"check":pid,"result":rc,"violation_lines":int(nv),"no_failing_input_found":int(nf),"first":first,"summary":line}
 json.dump(m,open(p,"w"),indent=1)
 PY
 done
